@@ -1,5 +1,5 @@
 (* Extraction of the syntax-layer model (lexer, escape, quoting, ...) -- ExtrOcamlBasic only. *)
-From OV Require Import Base.Strs Syn.Escape Syn.Quote Syn.Ast Syn.Emitter Lex.Lexer Syn.Parser Syn.Wf Syn.StrictProfile Rt.TokRound Rt.TokRoundEx Rt.LexLink Rt.StrictEmit Rt.TokRound2 Rt.TokRound2Ex.
+From OV Require Import Base.Strs Syn.Escape Syn.Quote Syn.Ast Syn.Emitter Lex.Lexer Syn.Parser Syn.Wf Syn.StrictProfile Rt.TokRound Rt.TokRoundEx Rt.LexLink Rt.StrictEmit Rt.TokRound2 Rt.TokRound2Ex Rt.LexLink2Text.
 Require Import ExtrOcamlBasic.
 
 Definition cls_of (tbl : list (N * N)) (c : N) : N :=
@@ -16,9 +16,11 @@ Definition parse_tbl (strict : bool) (cls : list (N * N)) (nums : list (str * (b
 Definition core_shape_tbl (tbl : list (N * N)) (d : doc) (lines : list (str * str)) : N :=
   core_shape_check (cls_of tbl) d lines.
 
-(* membership in the domains of the text-level theorems: bit0 core_doc, bit1 lex_safe_doc, bit2 strict_safe_doc *)
+(* membership in the domains of the text-level theorems: bit0 core_doc, bit1 lex_safe_doc, bit2 strict_safe_doc,
+   bit3 core2_doc, bit4 lex_safe2_doc *)
 Definition theorem_domains (d : doc) : N :=
-  ((if core_doc d then 1 else 0) + (if lex_safe_doc d then 2 else 0) + (if strict_safe_doc d then 4 else 0))%N.
+  ((if core_doc d then 1 else 0) + (if lex_safe_doc d then 2 else 0) + (if strict_safe_doc d then 4 else 0) +
+   (if core2_doc d then 8 else 0) + (if lex_safe2_doc d then 16 else 0))%N.
 
 Definition core2_shape_tbl (tbl : list (N * N)) (d : doc) (lines : list (str * str)) : N :=
   core2_shape_check (cls_of tbl) d lines.
